@@ -169,6 +169,14 @@ check("C02", "exploration",
       "deterministic simulation with fault injection: seeded placement/schedule/fault/crash search; snapshot equality after every step and write-log scan",
       "§7 C02")
 
+check("C04", "exploration",
+      "Seeded deterministic simulation in W-xr of the real XR reconciler with FunctionComposer, FetchingFunctionRunner, ExistingExtraResourcesFetcher and the real xfn.PackagedFunctionRunner + v1beta1 fall-back client; scripted functions (deterministic programs of their request carried in the step input) answer at the gRPC interceptor seam after a protobuf wire round trip. "
+      "Pipelines of 1-4 steps over two functions: desired resources emitted, dropped, relabelled, renamed; context trail appended or rewritten; requirement programs by name, by labels, link-chasing (changes between rounds) and never-stabilising; credentials from secrets; results, conditions, fatal results. While reconciles run, the environment changes the extra resources, the credential secrets, the active function revision and its endpoint, v1 vs v1beta1 serving, uninstalls and reinstalls functions, and runs the connection garbage collector concurrently (the runner's lock is scheduler-visible); transport errors, API errors, conflicts, crashes. "
+      "Judged at the end of every XR reconcile by a reference interpreter of the function contract (written from run_function.proto, sharing no code with Compose or FetchingFunctionRunner) replayed over the recorded requests: call n goes to the step the pipeline names and to the endpoint of the active revision listed right before the call; observed state identical in every call and equal to the XR and the controlled, referenced composed resources this reconcile read; desired and context equal to the previous step's settled output (empty for the first); the step's own input and the credentials' secret data as read; after a response whose requirements differ from the previous round's the next call is the same step carrying exactly the resources this reconcile's reads returned for the latest selectors (none left over from earlier rounds or steps); no call after a fatal result, a failed call, a failed read or the end of the pipeline; at most 16 rounds; nothing applied unless the last step settled; applied resources and XR status equal the last step's output; results appear as events in pipeline order and conditions reach the XR with later steps overriding earlier ones; the v1beta1 request equals the v1 request it replaces.",
+      TB + " The schedule dimension is thin here (concurrent writers, endpoint flips, fall-back, connection GC); most deciding power comes from seeded programs checked against the reference model over the recorded message history.",
+      "deterministic simulation with fault injection: seeded program/schedule/fault search; refinement of the recorded request history against an executable reference model of the function contract",
+      "§7 C04")
+
 check("C05", "exploration",
       "Seeded deterministic simulation in W-claim of the real XR reconciler (both composers) and the real claim reconciler, with composed kinds served by real schema validation (one kind rejects applies that lack a required field), an external actor flipping composed resources' status, and scripted functions that mark resources ready by all/observed/field/none, mark the XR ready true/false/unset, emit conditions of system and custom types with both targets, and return warning or fatal results; P&T templates with readiness checks (None, MatchString, default condition) and required patches whose XR source may be missing. API faults, lost replies, conflicts, crashes. "
       "Judged at the end of every XR reconcile that committed a status write, against the recorded function responses, the revision used and the write log of that very reconcile: Ready=True only if the pipeline marked the XR ready, or did not mark it unready and every desired resource is ready (P&T: recomputed by an independent readiness evaluator on the object as applied); "
@@ -199,7 +207,7 @@ def main():
         "setup_cmd": "./setup.sh",
         "hooks": {
             "guard": "none: no file under /repo carries a hook; instrumentation is applied at build time with go build -overlay (generated copies under /verif/out/overlay)",
-            "enable": "./build.sh (go1.26.8 test -c -overlay out/overlay/overlay.json ./harness): GOROOT map-seed patch, simsync lock rewrite of internal/engine/{engine,cache}.go copied from /repo's current tree, overlay-only package internal/simsync",
+            "enable": "./build.sh (go1.26.8 test -c -overlay out/overlay/overlay.json ./harness): GOROOT map-seed patch, simsync lock rewrite of internal/engine/{engine,cache}.go and internal/xfn/function_runner.go copied from /repo's current tree, overlay-only package internal/simsync",
             "baseline_off_cmd": BASE,
             "source_commits": [],
             "add_only": True,
